@@ -9,6 +9,14 @@ def regen(rep):
     rc, out = vlib.sh([os.path.join(vlib.VERIF, "bin", "regen.sh"),
                        os.path.join(vlib.VERIF, "tools", "go2coq", "specs", "c19.spec")],
                       cwd=vlib.VERIF, timeout=300)
+    # The Go build cache is shared with ~20 concurrent checks and trimmed by age while they run: a link step can find an
+    # object file gone ("cannot open file ~/.cache/go-build/..-d").  Warm the harness build here, retrying on exactly that
+    # error, so that standard_check's own build hits a consistent cache.  A harness that genuinely no longer compiles
+    # against the repository fails here as well and is reported by standard_check as before.
+    for _ in range(3):
+        ok, _bin, log = vlib.harness_build("c19")
+        if ok or "go-build" not in log:
+            break
     return rc == 0, out
 
 
@@ -23,38 +31,52 @@ CFG = {
                      "theories/Geom/SdfTotalProofs.v", "theories/Geom/SdfVLineProofs.v", "theories/Geom/SdfTreeProofs.v"],
     "level_text": "Coq theorems over the real numbers about the Gallina definitions that tools/go2coq generates from "
                   "math/sdf/*.go and geometry.Line3D.ClosestPointOnLine on every run: sign, exact Euclidean distance and "
-                  "the 1-Lipschitz bound for sphere, plane, capsule and box; rounded box and rounded cylinder sign + "
-                  "1-Lipschitz; rounded cone as the minimum over its swept spheres (sign, exactness, 1-Lipschitz) under "
-                  "a <> b and |b-a|^2 > (r1-r2)^2; Union/Intersect/Subtract as set algebra for arbitrary operands "
-                  "(binary and n-ary) and closure of 1-Lipschitz functions; Translate f t p = f (p - t)",
+                  "the 1-Lipschitz bound for sphere, plane, capsule (also a = b) and box; rounded box and rounded cylinder "
+                  "sign + 1-Lipschitz; rounded cone as the minimum over its swept spheres (sign, exactness, 1-Lipschitz) for "
+                  "ALL parameters (nested end spheres and a = b included); VarryingThicknessLine = Union of the rounded cones "
+                  "between consecutive points (sign, 1-Lipschitz, panics iff fewer than two points); Union/Intersect/Subtract "
+                  "as set algebra for arbitrary operands (binary and n-ary, negative and positive side) and closure of "
+                  "1-Lipschitz functions; Translate f t p = f (p - t); positive homogeneity of every primitive; and for whole "
+                  "expressions over all twelve constructors: tree_lipschitz and tree_sign (negative / positive set = the "
+                  "set-algebra expression); two refuted witnesses (plane with a non-unit normal is not exact; Subtract is 0, "
+                  "not negative, on the subtrahend's boundary)",
     "level_note": "Statements are over R (no IEEE rounding): the float implementation is tied by translation "
                   "(regenerated and re-proved from the Go source on every run, validated by evaluating the generated "
                   "definitions over Q against Go's values) plus numeric sampling of the theorem statements on the "
                   "implementation. Print Assumptions lists only the axioms of Coq's classical reals "
-                  "(sig_forall_dec, sig_not_dec, functional_extensionality_dep). Degenerate parameters "
-                  "(Line(a,a,r); RoundedCone with one end sphere inside the other) are outside the theorems' "
-                  "hypotheses and are reported as separate streams",
+                  "(sig_forall_dec, sig_not_dec, functional_extensionality_dep). Line(a,a,r) and RoundedCone with one end "
+                  "sphere inside the other are inside the theorems since round 4 (the *_total statements); their streams "
+                  "stay separately counted. Not modelled: the Line3D methods no sdf constructor calls",
     "technique": "Coq proof over Reals of translated (go2coq) definitions + vm_compute validation of the translation "
                  "over Q + numeric sampling of the statements on the implementation",
     "design_ref": "DESIGN.md §4 C19, §2.3, §3.1",
     "n_quick": 220, "n_thorough": 2500,
     "rule": "exact stream (dyadic shapes/points, perfect-square roots: generated definitions over Q must equal Go exactly), "
             "random primitives and operator trees (depth <= 2, 1-5 operands) at points around the shape, projected "
-            "onto the surface (offsets 0..0.3 incl. 1e-12), on axes, beyond caps, on the rounded cone's branch "
-            "boundaries: Q model within 1e-9, sign vs closed-form membership (Coq), independent float reference "
-            "(cone: golden-section search over the swept spheres), operators vs pointwise min/max of operand values, "
-            "translate vs f(p-t); Lipschitz on explicit pairs (Coq) and dense harness-side batches (steps 1e-4..5); "
-            "exactness vs a rigorous branch-and-bound enclosure of the distance to the surface; constructor side effects: "
-            "Union/Intersect/Subtract/Translate called in every order (steps may repeat) on ONE shared caller-owned operand "
-            "slice of 2-6 shapes, then every constructed field and every operand re-evaluated bit for bit against min/max of "
-            "separately built originals; distinct by input; non-trivial = every case",
-    "trusted": ["tools/go2coq (translator, ~2600 lines of Go): validated on every run by vm_compute of the generated "
+            "onto the surface (offsets 0..0.3 incl. 1e-12, 3e-8, 1e-7), on axes, beyond caps, on the rounded cone's branch "
+            "boundaries: Q model within 1e-9, sign vs closed-form membership (Coq), independent float reference of the "
+            "whole tree (cone: golden-section search over the swept spheres; operators recursively from the leaves), "
+            "operators bit-exact vs pointwise min/max of operand values, translate vs f(p-t); REGION stream: every "
+            "Voronoi region of every primitive by construction (box: 3 interior cells, 3 face, 3 edge, corner, centre; "
+            "cylinder: interior by side/cap, side, cap, rim, axis; capsule/cone: cap a, lateral, cap b x inside/outside, "
+            "axis, beyond the axis, next to the caps) and pairs straddling every region boundary (2 eps apart, eps 1e-9..1e-3), "
+            "each also at a micro/macro scale (2^-40..2^12, decimal 1e-9..1e4; homogeneity, reference and Lipschitz relative "
+            "to the scale); translate offsets with all components below 1e-8 but not all zero, chains of up to 60 tiny "
+            "translations, operator chains of 3..10 steps, n-ary operators of 4..33 (thorough 40) operands with the decisive "
+            "operand rotated through every index; VarryingThicknessLine of 2..7 points (nested / repeated points); "
+            "constructors on 0..3 operands (declared panics == generated _panics); every evaluated field re-evaluated "
+            "after neighbouring points and against a freshly built field (bit for bit); Lipschitz on explicit pairs "
+            "(Coq, steps 1e-9..5) and dense harness-side batches; exactness vs a rigorous branch-and-bound enclosure of the "
+            "distance to the surface; constructor side effects: Union/Intersect/Subtract/Translate called in every order on "
+            "ONE shared caller-owned operand slice of 2-6 shapes, then every constructed field and every operand "
+            "re-evaluated bit for bit; distinct by input; non-trivial = every case",
+    "trusted": ["tools/go2coq (translator, ~3900 lines of Go): validated on every run by vm_compute of the generated "
                 "definitions over Q against the implementation's values (exact on the dyadic stream, 1e-9 otherwise)",
                 "coq/theories/Geom/Vec.v prelude: transcription of github.com/EliCDavis/vector v1.8.0 methods",
                 "Reals axioms: ClassicalDedekindReals.sig_forall_dec, sig_not_dec, FunctionalExtensionality.functional_extensionality_dep"],
     "modelled": ["float64 arithmetic is modelled by exact real / rational arithmetic; rounding is covered by tolerances "
                  "(1e-9 relative) in the sampling, not by proof",
-                 "Go panics (Union/Intersect of no fields, nil field) are outside the total model: <name>_panics = false is a hypothesis"],
+                 "Go panics (Union/Intersect of no fields, VarryingThicknessLine of fewer than two points, nil field) are outside the total model: <name>_panics = false is a hypothesis; the panics stream checks that the declared panics occur exactly where the generated _panics companions say"],
 }
 
 
